@@ -79,6 +79,7 @@ type ServerSide struct {
 	Middleware2Saw       string `json:"middleware2_saw,omitempty"`
 	SecurityCalls        int    `json:"security_calls"`
 	SecurityRefused      bool   `json:"security_refused,omitempty"`
+	LabelsForeign        string `json:"labels_foreign,omitempty"`
 	NewErrorStatus       int    `json:"new_error_status,omitempty"`
 	CustomNotFound       int    `json:"custom_not_found,omitempty"`
 	CustomNotAllow       int    `json:"custom_method_not_allowed,omitempty"`
